@@ -7,6 +7,7 @@ from __future__ import annotations
 
 import importlib
 import json
+import logging
 import os
 import sys
 import time
@@ -36,8 +37,12 @@ def _lemma_worker(args):
     m = importlib.import_module(modname)
     t = time.time()
     try:
-        obs = m.LEMMAS[idx](REPO_ROOT, timeout_ms)
-        return ("ok", obs, time.time() - t)
+        from pyvc.repo import Repo
+        from pyvc.verify import run_script
+        name, script = m.LEMMAS[idx]
+        contracts = {c.target: c for c in m.CONTRACTS}
+        rep = run_script(Repo(REPO_ROOT), contracts, prop_id, name, script, timeout_ms)
+        return ("ok", rep, time.time() - t)
     except Exception as e:
         return ("crashed", f"{type(e).__name__}: {e}\n{traceback.format_exc()[-1500:]}", time.time() - t)
 
@@ -58,6 +63,7 @@ def load_baseline(prop):
 
 def run_property(modname: str, tier: str = "quick", write_baseline=False) -> int:
     t0 = time.time()
+    logging.disable(logging.CRITICAL)
     sys.path.insert(0, REPO_ROOT)     # replays import the tree the VCs came from
     sys.path.insert(0, VERIF)
     m = importlib.import_module(modname)
@@ -80,7 +86,7 @@ def run_property(modname: str, tier: str = "quick", write_baseline=False) -> int
             try:
                 st, obs, sec = f.result()
                 if st == "ok":
-                    lemma_obs.extend(obs)
+                    reports.append(obs)
                 else:
                     crashed.append("lemma: " + obs)
             except Exception as e:
@@ -174,6 +180,9 @@ def run_property(modname: str, tier: str = "quick", write_baseline=False) -> int
         print(f"UNDECIDED property={prop} function={r.qualname} not verifiable: {r.reason[:300]}")
     for r in vacuous:
         print(f"UNDECIDED property={prop} function={r.qualname} vacuous: no feasible exit reached")
+    unreached = [(r.qualname, u) for r in reports for u in getattr(r, "unreached", [])]
+    for q, u in unreached:
+        print(f"UNDECIDED property={prop} function={q} vacuous: {u} never reached on a satisfiable path")
     for c in crashed:
         print(f"CHECKER-ERROR property={prop} {c[:2000]}")
 
@@ -249,7 +258,7 @@ def run_property(modname: str, tier: str = "quick", write_baseline=False) -> int
         return 3
     if violations:
         return 1
-    if undecided or not_verifiable or vacuous:
+    if undecided or not_verifiable or vacuous or unreached:
         return 2
     return 0
 
